@@ -398,9 +398,10 @@ Inductive case :=
 (* from_dict(to_dict(search)) for class `cls` whose search.json carries `keys`: did it succeed? *)
 | CSettings (cls : string) (keys : list string) (impl_ok : bool)
 (* single fits written by the real code: (1) the folders the model predicts are the folders found,
-   (2) scrape (write specs) in walk order = observed database, (3) direct rows = observed direct rows *)
+   (2) scrape (write specs) in walk order = observed database, (3) direct rows = observed direct rows
+   (None: that fit was not written through a session, e.g. combined analyses) *)
 | CFits (co : bool) (specs : list fit_spec) (walk : list nat)
-        (found : list folder) (obs : observed) (direct : list row)
+        (found : list folder) (obs : observed) (direct : list (option row))
 (* arbitrary directory (grid searches, copies): scrape dir = observed database;
    per grid search: observed best fit id *)
 | CDir (co : bool) (dir : list folder) (obs : observed) (best_ids : list (string * option string)).
@@ -420,7 +421,7 @@ Definition check_case (classes : list search_class) (uf : bool) (c : case) : boo
       Nat.eqb (List.length walk) (List.length specs)
       && list_eqb folder_eqb (map write_fit specs) found
       && outcome_matches (scrape classes uf co dir []) obs
-      && list_eqb (fun s o => same_fit (direct_row s) o) specs direct
+      && list_eqb (fun s o => match o with Some r => same_fit (direct_row s) r | None => true end) specs direct
   | CDir co dir obs best_ids =>
       outcome_matches (scrape classes uf co dir []) obs
       && match scrape classes uf co dir [] with
